@@ -326,12 +326,13 @@ ASSUMPTIONS = [
 ]
 
 
-def unbound_kind(spec, name):
-    """coarse class of an unbound name (shared by the known-finding signatures of several checks)"""
+def unbound_kind(spec, name, context=""):
+    """coarse class of an unbound name (shared by the known-finding signatures of several checks);
+    context = the source line of the read"""
     m = spec.get("mapping") or {}
     lo = sum((m.get("loop-order") or {}).values(), [])
     part = m.get("partitioning") or {}
-    if name in lo and name[-1:].isdigit():
+    if name in lo and name[-1:].isdigit() and "iterRangeShapeRef(" in context:
         return "level-name-as-size"
     if name.upper() in lo and name.islower():
         for ranks in part.values():
@@ -397,9 +398,9 @@ def work_equiv(spec, metrics=False, twin=True, targets=None, total=False):
         r["sig"] = dict(spec.get("tags") or {}, engine="E1", cls=cls)
         if cls == "model-error:NameError":
             import re as _re
-            m = _re.search(r"NameError: (\w+)", " ".join(diffs))
+            m = _re.search(r"NameError: (\w+)(?: @ ([^;|]*))?", " ".join(diffs))
             nm = m.group(1) if m else "?"
-            r["sig"]["unbound"] = unbound_kind(spec, nm)
+            r["sig"]["unbound"] = unbound_kind(spec, nm, (m.group(2) or "") if m else "")
         r["replay"] = {"spec": spec, "metrics": metrics, "text": text, "presence": pres, "targets": targets,
                        "differences": diffs}
         return r
@@ -565,9 +566,9 @@ def work_names(spec, metrics=False):
     sig = dict(spec.get("tags") or {}, engine="E1", cls=cls)
     if cls == "model-error:NameError":
         import re as _re
-        m = _re.search(r"NameError: (\w+)", " ".join(diffs))
+        m = _re.search(r"NameError: (\w+)(?: @ ([^;|]*))?", " ".join(diffs))
         nm = m.group(1) if m else "?"
-        sig["unbound"] = unbound_kind(spec, nm)
+        sig["unbound"] = unbound_kind(spec, nm, (m.group(2) or "") if m else "")
     return dict(res, status="violation", confirmed=bool(diffs), why="; ".join((problems or which(obls, model))[:3]) + " | concrete replay: " + "; ".join(diffs[:3]),
                 sig=sig,
                 replay={"spec": spec, "metrics": metrics, "text": text, "presence": pres, "differences": diffs, "targets": None})
